@@ -92,9 +92,8 @@ def natural_failure(run: "SingleRun", exc: BaseException) -> bool:
     """A failing amortized computation that the *inputs* explain (DESIGN section 7): an iterative solver that did not
     converge / blew up, or the stability path of the eigen solver when epsilon lies below the factor's resolution.
     Such a run ends without a verdict; everything up to the raising step was still checked."""
-    name = type(exc).__name__
     msg = str(exc)
-    if name not in ("PreconditionerValueError", "ValueError"):
+    if not isinstance(exc, ValueError):  # (PreconditionerValueError and any tolerance error are ValueErrors)
         return False
     if not ("inverse factor matrix" in msg or "exceeded the allowed tolerance" in msg or "eigenvectors" in msg):
         return False
@@ -378,7 +377,7 @@ class RefOracle(Oracle):
                 run.probes["ended_by_natural_solver_failure"] += 1
                 run.ended_naturally = True
                 return
-            if type(exc).__name__ == "PreconditionerValueError" and self._diverging(run):
+            if isinstance(exc, ValueError) and "factor matrix" in str(exc) and self._diverging(run):
                 run.probes["ended_by_divergence"] += 1
                 run.ended_naturally = True
                 return
